@@ -95,6 +95,17 @@ def gen_rounds(seed, tier, run):
         for op in ("vstack", "hstack", "dstack", "column_stack"):
             out.append(f"{op} {L([arr(s1), arr(s1, base=50), arr(s1, base=90)])}")
             out.append(f"{op} {L([arr(s1)])}")
+    # ranks beyond the promoted rank (seeded change C11h: dstack joined along the LAST axis, visible from rank 4 on)
+    high = [[2, 2, 2, 2], [2, 1, 1, 3], [2, 1, 2, 3], [2, 2, 2, 3], [2, 2, 3, 2], [1, 2, 3, 2], [3, 2, 2, 2], [2, 3, 2, 2], [2, 2, 2, 2, 2], [2, 2, 1, 2, 3],
+            [2, 2, 2], [2, 3, 2]]
+    for s1, s2 in itertools.product(high, repeat=2):
+        if len(s1) < 4 and len(s2) < 4:
+            continue
+        for op in ("vstack", "hstack", "dstack", "column_stack"):
+            out.append(f"{op} {L([arr(s1), arr(s2, base=50)])}")
+        if s1 == s2:
+            for ax in range(len(s1) + 2):
+                out.append(f"stack {L([arr(s1), arr(s2, base=50), arr(s1, base=200)])} {z(ax)}")
     # splitting
     split_idx = []
     shs = list(shapes(4, 3)) + [s for s in shapes(2, 4) if max(s) == 4] + [[5, 2], [6], [2, 6], [4, 3, 2]]
